@@ -20,6 +20,10 @@ class Hier:
         self.problems: List[Tuple[str, str]] = []   # (clause, detail)
         self.levels: List[Tuple[object, Optional[RegionBlock], int]] = []
         self._walk(scfg, None, 0, set())
+        top_region = getattr(scfg, "region", None)
+        if top_region is not None and getattr(top_region, "name", None) in self.flat:
+            self.problems.append(("names/duplicate", f"name {top_region.name!r} names both the graph's own (meta) region and a "
+                                                     f"{type(self.flat[top_region.name].block).__name__} inside it"))
 
     def _walk(self, scfg, region, depth, seen_graphs):
         if id(scfg) in seen_graphs:
